@@ -33,6 +33,12 @@ func registerAll() {
 	ev.Register("C01", "policy-events", checkC01)
 	ev.Register("C02", "grid", checkC02)
 	ev.Register("C07", "policy", checkC07)
+	ev.Register("C13", "history", checkC13History)
+	ev.Register("C13", "concurrent", checkC13Concurrent)
+	ev.Register("C13", "text", checkC13Text)
+	ev.Register("C13", "processes", checkC13Processes)
+	ev.Register("C14", "parse", checkC14Parse)
+	ev.Register("C14", "config", checkC14Cfg)
 	ev.Register("C05", "program", checkC05)
 	ev.Register("C05", "verifier-differential", checkC05Diff)
 	ev.Register("C07", "arch", checkC07Arch)
